@@ -5,4 +5,5 @@ import GeoVerif.Ops.Capex
 import GeoVerif.Ops.Plant
 import GeoVerif.Ops.Reservoir
 import GeoVerif.Ops.Pressure
+import GeoVerif.Ops.Hip
 /-! Everything the driver needs (import-free models + ops). -/
